@@ -40,6 +40,13 @@ type Byz struct {
 	twinMsgs     map[string]*protocol.Message
 	Equivocate   map[party.ID]bool // if set: only these recipients get the altered version (C06)
 	Malform      bool
+	// systematic mode: the alteration is the Cell-th entry of the enumerated catalogue
+	// (target message x node x operator), not a drawn one
+	Systematic bool
+	Cell       int
+	CellCount  int
+	sysNode    int
+	sysOp      string
 }
 
 type heldMsg struct {
@@ -64,10 +71,20 @@ func bankEntry(origin string, m *protocol.Message) (mut.BankEntry, bool) {
 
 // NewByz draws the world: scenario, cheater, target message; runs the twin session to fill the bank.
 func NewByz(c *fw.Ctx, o scen.ScenarioOpts, ops []string, malform bool) *Byz {
+	return newByz(c, scen.DrawScenario(c, o), ops, malform, -1)
+}
+
+// newByz builds the world for a given scenario; cell >= 0 selects the systematic mode.
+func newByz(c *fw.Ctx, sc *scen.Scenario, ops []string, malform bool, cell int) *Byz {
 	b := &Byz{C: c, Ops: ops, Malform: malform, honestBV: map[int][]byte{}, held: map[int][]heldMsg{}, twinMsgs: map[string]*protocol.Message{}}
-	b.Sc = scen.DrawScenario(c, o)
+	b.Sc = sc
 	parts := b.Sc.Parts
-	b.Cheater = parts[c.S.Draw(len(parts), "cheater")]
+	if cell >= 0 {
+		b.Systematic, b.Cell = true, cell
+		b.Cheater = parts[0]
+	} else {
+		b.Cheater = parts[c.S.Draw(len(parts), "cheater")]
+	}
 	for _, id := range parts {
 		if id != b.Cheater {
 			b.Honest = append(b.Honest, id)
@@ -101,6 +118,51 @@ func NewByz(c *fw.Ctx, o scen.ScenarioOpts, ops []string, malform bool) *Byz {
 	if len(b.Targets) == 0 {
 		return b
 	}
+	if b.Systematic {
+		// enumerate the catalogue over the twin's messages (same shapes as the real run's): cell ->
+		// (target message, node, operator)
+		type cellT struct {
+			key string
+			n   int
+			op  string
+		}
+		var cells []cellT
+		for _, k := range b.Targets {
+			t, err := mut.Decode(b.twinMsgs[k].Data)
+			if err != nil {
+				continue
+			}
+			// representatives only: of the elements of a long array (the OT messages hold hundreds of
+			// equally shaped entries) the first, the last and one other position are enumerated
+			nodes := mut.Nodes(t)
+			classCount := map[string]int{}
+			for _, n := range nodes {
+				classCount[n.Path.Class()]++
+			}
+			classSeen := map[string]int{}
+			for i, n := range nodes {
+				cl := n.Path.Class()
+				pos := classSeen[cl]
+				classSeen[cl]++
+				if total := classCount[cl]; total > 3 && pos != 0 && pos != total-1 && pos != total/2 {
+					continue
+				}
+				for _, op := range b.Ops {
+					if mut.Applicable(op, n) {
+						cells = append(cells, cellT{k, i, op})
+					}
+				}
+			}
+		}
+		b.CellCount = len(cells)
+		if len(cells) == 0 {
+			b.Targets = nil
+			return b
+		}
+		cl := cells[b.Cell%len(cells)]
+		b.TargetKey, b.sysNode, b.sysOp = cl.key, cl.n, cl.op
+		return b
+	}
 	b.TargetKey = b.Targets[c.S.Draw(len(b.Targets), "target-message")]
 	b.Liar = c.S.Draw(2, "liar") == 1
 	return b
@@ -110,6 +172,35 @@ func NewByz(c *fw.Ctx, o scen.ScenarioOpts, ops []string, malform bool) *Byz {
 func (b *Byz) alter(m *protocol.Message) *protocol.Message {
 	c := b.C
 	nm := *m
+	if b.Systematic {
+		tree, err := mut.Decode(m.Data)
+		if err != nil {
+			return m
+		}
+		nodes := mut.Nodes(tree)
+		if b.sysNode >= len(nodes) || !mut.Applicable(b.sysOp, nodes[b.sysNode]) {
+			return m
+		}
+		t2, res, ok := mut.Apply(c.S, mut.Clone(tree), nodes[b.sysNode], b.sysOp, b.bank)
+		if !ok {
+			return m
+		}
+		var data []byte
+		func() {
+			defer func() {
+				if recover() != nil {
+					data = nil
+				}
+			}()
+			data = mut.Encode(t2)
+		}()
+		if data == nil || string(data) == string(m.Data) {
+			return m
+		}
+		nm.Data = data
+		b.Applied = &res
+		return &nm
+	}
 	// header rewrite / whole-payload substitution / field mutation
 	choice := c.S.Draw(10, "alter-kind")
 	if b.Headers && choice == 9 {
